@@ -131,3 +131,21 @@ func VH_C01_TransferDecode() {
 		vAssertEqBytes("size", t.DataSize[:], b[8:12])
 	}
 }
+
+// Folder-upload item header, decoding side: a one-item path whose name has any length the one-byte prefix allows
+// (1..255) decodes to exactly that name (every length is run as its own case; the name is plain letters so that the
+// path cleaning after decoding is the identity).
+func VH_C01_FolderItemPathEveryNameLength() {
+	vUnroll(300)
+	n := vInt("name_length")
+	vAssume(n >= 1 && n <= 255)
+	n = vConcrete(n)
+	name := make([]byte, n)
+	for i := range name {
+		name[i] = 'a' + byte(i%26)
+	}
+	fu := folderUpload{PathItemCount: [2]byte{0, 1}}
+	fu.FileNamePath = append([]byte{0, 0, byte(n)}, name...)
+	got := fu.FormattedPath()
+	vAssert("folder_item_name_decoded", got == "/"+string(name))
+}
